@@ -324,6 +324,21 @@ def special_d(rng, tier):
     out.append(S.d("RR", rr_wire(64, 1, 5, b"\x00\x01\x00" + par(3, b"\x00\x50") + struct.pack(">HH", 7, 9) + b"abc")))
     out.append(S.d("RR", rr_wire(64, 1, 5, b"\x00\x01\x00" + par(1, st(b"h2") + b"\x05h3"))))
     out.append(S.d("RR", rr_wire(64, 1, 5, b"\x00\x01\x00" + par(1, st(b"h2")) + b"\x00\x03\x00")))
+    # text whose Display form needs escaping, mixed with multi-octet characters (character index versus octet offset),
+    # in every text-bearing field; labels with leading / trailing white space (legal octets, must be kept)
+    for txt in ("\u00e9,x", "\u65e5\u672c\\", "h\u00fc,2", "a\\b,c", "\"q\"", "x y", "\u00e9\u00e9\u00e9,,\\\\", ",", "\\", "\U0001f600,\u00e9\\",
+                "tab\there", "nul\x00in", "\u00a0nbsp"):
+        b = txt.encode()
+        out.append(S.d("RR", rr_wire(64, 1, 5, b"\x00\x01\x00" + par(1, st(b) + st(b"h2")))))
+        out.append(S.d("RR", rr_wire(65, 1, 5, b"\x00\x01\x00" + par(1, st(b"h3") + st(b)) + par(65280, b))))
+        out.append(S.d("RR", rr_wire(16, 1, 5, st(b) + st(b"second"))))
+        out.append(S.d("RR", rr_wire(13, 1, 5, st(b) + st(b))))
+        out.append(S.d("RR", rr_wire(256, 1, 5, b"\x00\x01\x00\x02" + b)))
+        out.append(S.d("RR", rr_wire(257, 1, 5, b"\x00\x05issue" + b)))
+        out.append(S.d("DomainName", st(b) + b"\x03org\x00"))
+    for lab in (b" a", b"a ", b" ", b"\ta", b"a\n", b"\xc2\xa0a", b" a b ", b"\r\n"):
+        out.append(S.d("DomainName", st(lab) + b"\x03org\x00"))
+        out.append(S.d("Dns", msg_wire(qd=[st(lab) + st(b"a") + b"\x00\x00\x01\x00\x01", st(b"a") + b"\x00\x00\x01\x00\x01"])))
     # text that is not UTF-8 in every text-bearing field (the library's documented rule: rejected, never repaired)
     for bad in (b"\x80", b"\xff", b"caf\xc3", b"\xc3\x28", b"a\xe2\x82", b"\xed\xa0\x80", b"\xf8\x88\x80\x80\x80", b"ok\xc0\xaf"):
         out.append(S.d("RR", rr_wire(16, 1, 5, st(b"fine") + st(bad))))
